@@ -90,14 +90,26 @@ Definition has_control (cs : list (name * node)) : bool :=
   | _ => false
   end || has_name n_git cs.
 
+(* _contains_controldir (commit 07ac4fc): os.walk below the directory (symlinks are not entered);
+   wherever an entry is named like a control directory ControlDir.open is tried -- [has_control]
+   already implies such an entry *)
+Fixpoint contains_control (n : node) : bool :=
+  match n with
+  | Dir cs => has_control cs ||
+              (fix go (cs : list (name * node)) : bool :=
+                 match cs with [] => false | (_, ch) :: r => contains_control ch || go r end) cs
+  | _ => false
+  end.
+
 (* _filter_out_nested_controldirs: only real directories are probed (osutils.isdir is lstat based) *)
 Definition keep_nested (t : node) (p : path) : bool :=
-  match lookup p t with Some (Dir cs) => negb (has_control cs) | _ => true end.
+  match lookup p t with Some (Dir cs) => negb (contains_control (Dir cs)) | _ => true end.
 
-(* iter_deletables, first test (commit b06b6de): an extra whose BASENAME is a control filename of any
-   registered format (controldir.is_control_filename: bzr -> ".bzr", git -> ".git") is never offered *)
+(* iter_deletables, first test (commits b06b6de, edd5827): an extra with a path COMPONENT that is a
+   control filename of any registered format (controldir.is_control_filename: bzr -> ".bzr",
+   git -> ".git") is never offered *)
 Definition is_control_name (c : name) : bool := name_eqb c n_bzr || name_eqb c n_git.
-Definition not_control (p : path) : bool := negb (is_control_name (last_name p)).
+Definition not_control (p : path) : bool := negb (existsb is_control_name p).
 
 Definition deletables (fl : flavour) (o : opts) (ign : list path) (t : node) (vs : list (path * bool))
   : list path :=
